@@ -32,6 +32,10 @@ type RTarget struct {
 	SleepMs int      `json:",omitempty"`
 	Fail    bool     `json:",omitempty"` // command exits 3 (after logging S)
 	ExecOut bool     `json:",omitempty"` // command additionally makes its (single, regular-file) output executable
+	// Tools are labels of targets the rule declares as tools (built before it, hashed as inputs, but not in $SRCS).
+	Tools []string `json:",omitempty"`
+	// SubOut puts the outputs of a genrule into a sub-directory ("o/<name>.out") of the package's output dir.
+	SubOut bool `json:",omitempty"`
 	// Visibility is the target's visibility list (nil = ["PUBLIC"]); TestOnly marks it test_only.
 	Visibility []string `json:",omitempty"`
 	TestOnly   bool     `json:",omitempty"`
@@ -82,6 +86,7 @@ func (r *Repo) Clone() *Repo {
 		tt.Outs = append([]string{}, t.Outs...)
 		tt.Requires = append([]string{}, t.Requires...)
 		tt.Visibility = append([]string(nil), t.Visibility...)
+		tt.Tools = append([]string(nil), t.Tools...)
 		if t.Provides != nil {
 			tt.Provides = map[string]string{}
 			for k, v := range t.Provides {
@@ -169,12 +174,36 @@ func (t *RTarget) Deps() []string {
 			set[s.Label] = true
 		}
 	}
+	for _, l := range t.Tools {
+		set[l] = true
+	}
 	var out []string
 	for k := range set {
 		out = append(out, k)
 	}
 	sort.Strings(out)
 	return out
+}
+
+// SrcDeps returns the labels among the sources (what ends up in $SRCS), after require/provide resolution.
+func (r *Repo) SrcDeps(t *RTarget) []string {
+	tool := map[string]bool{}
+	for _, l := range t.Tools {
+		tool[l] = true
+	}
+	isSrc := map[string]bool{}
+	for _, s := range t.Srcs {
+		if s.Label != "" {
+			isSrc[s.Label] = true
+		}
+	}
+	if len(t.Tools) == 0 {
+		return r.ResolvedDeps(t)
+	}
+	// with tools: resolve only the source labels (tools are never redirected by provides)
+	c := *t
+	c.Tools = nil
+	return r.ResolvedDeps(&c)
 }
 
 // ResolvedDeps returns the labels a target really depends on once require/provide has been applied
@@ -323,7 +352,7 @@ func (r *Repo) Eval() (outs map[string][]OutEnt, ok map[string]bool) {
 					ins = append(ins, input{t.Pkg + "/" + f, &Node{Name: filepath.Base(f), Content: rf.Content}})
 				}
 			}
-			for _, d := range r.ResolvedDeps(t) {
+			for _, d := range r.SrcDeps(t) { // tools are not in $SRCS
 				dt := r.Target(d)
 				for _, o := range outs[d] {
 					ins = append(ins, input{dt.Pkg + "/" + o.Rel, o.Node})
@@ -420,6 +449,14 @@ func (r *Repo) Buildable() map[string]bool {
 		}
 		return ok
 	}
+	if r.Subinclude && r.DefsChain && !ok["//defs:defs"] {
+		// the subincluded file cannot be produced: no package that subincludes it can be parsed
+		for _, t := range r.Targets {
+			if !r.plainPkg(t.Pkg) {
+				ok[t.Label()] = false
+			}
+		}
+	}
 	// a node first reached while its cycle partner was "visiting" may have been marked good too early
 	// only if it is not itself on the cycle – re-run until stable to be safe
 	for changed := true; changed; {
@@ -448,7 +485,7 @@ const shLib = `L(){ printf '%s %s\n' "$1" '@LABEL@' >> "${TMP_DIR%%/plz-out/tmp/
 	`K(){ D | LC_ALL=C tr -c 'a-z0-9' '_' | tail -c 8; }; `
 
 // DefsText is the build_defs file every package subincludes when Repo.Subinclude is set.
-const DefsText = "def vgenrule(name:str, srcs:list, outs:list, cmd:str, visibility:list, requires:list=None, provides:dict=None, test_only:bool=False):\n    return genrule(name=name, srcs=srcs, outs=outs, cmd=cmd, visibility=visibility, requires=requires, provides=provides, test_only=test_only)\n"
+const DefsText = "def vgenrule(name:str, srcs:list, outs:list, cmd:str, visibility:list, requires:list=None, provides:dict=None, test_only:bool=False, tools:list=None):\n    return genrule(name=name, srcs=srcs, outs=outs, cmd=cmd, visibility=visibility, requires=requires, provides=provides, test_only=test_only, tools=tools)\n"
 
 // plainPkg reports whether a package defines its rules directly (no subinclude): the packages that
 // produce the subincluded file itself.
@@ -481,6 +518,9 @@ func (t *RTarget) ShellCmd() string {
 	}
 	if t.Fail {
 		c += "exit 3; "
+	}
+	if t.SubOut {
+		c += `for o in $OUTS; do mkdir -p "$(dirname "$o")"; done; `
 	}
 	if t.ExecOut && t.Cmd != "multi" && t.Cmd != "dirk" && t.Cmd != "dirn" && t.Cmd != "defs" {
 		body += ` && chmod +x "$OUT"`
@@ -538,6 +578,9 @@ func (r *Repo) RenderTarget(t *RTarget) string {
 		return fmt.Sprintf("filegroup(name=%s, srcs=%s, visibility=%s%s%s)\n", PyQuote(t.Name), srcExpr, vis, to, t.Extra)
 	}
 	extra := t.Extra
+	if len(t.Tools) > 0 {
+		extra += ", tools=" + pyList(t.Tools)
+	}
 	if t.TestOnly {
 		extra += ", test_only=True"
 	}
@@ -592,7 +635,7 @@ func (r *Repo) TreeFiles() map[string]string {
 		m[filepath.Join(f.Pkg, f.Path)] = f.Content
 	}
 	if r.Subinclude && !r.DefsChain {
-		defs := "def vgenrule(name:str, srcs:list, outs:list, cmd:str, visibility:list, requires:list=None, provides:dict=None, test_only:bool=False):\n    return genrule(name=name, srcs=srcs, outs=outs, cmd=cmd, visibility=visibility, requires=requires, provides=provides, test_only=test_only)\n"
+		defs := "def vgenrule(name:str, srcs:list, outs:list, cmd:str, visibility:list, requires:list=None, provides:dict=None, test_only:bool=False, tools:list=None):\n    return genrule(name=name, srcs=srcs, outs=outs, cmd=cmd, visibility=visibility, requires=requires, provides=provides, test_only=test_only, tools=tools)\n"
 		switch r.BrokenDefs {
 		case "syntax":
 			m["defs/BUILD"] = "filegroup(name=\"defs\", srcs=[\"defs.build_defs\"], visibility=[\"PUBLIC\"])\n"
